@@ -188,3 +188,12 @@ def register(kernel):
                          "forall nv : nat, GEN None (Z.of_nat nv) (Z.of_nat max_size) = true <-> (20 < nv)%nat",
                          "intros nv; change None with (option_map Z.of_nat (@None nat)); rewrite (TIE None nv); cbv [generate_hilbert_space max_size]; "
                          "destruct (Nat.ltb 20 nv) eqn:E; [apply Nat.ltb_lt in E | apply Nat.ltb_ge in E]; split; intros; try reflexivity; try discriminate; lia")])
+
+    # ------------------------------------------------------------------ C12: the control skeleton of fit
+    kernel("C12", name="fit_skeleton", kind="fit-skeleton", file="qucumber/nn_states/neural_state.py", func="NeuralStateBase.fit",
+           inputs=[], coq_params=[], thm_params=[("inj", "injector"), ("sched", "bool"), ("start", "Z"), ("epochs", "Z"), ("nb", "nat"),
+                                                   ("stop0", "bool"), ("ver0", "nat")],
+           stmt="run_skel GEN inj sched start epochs nb stop0 ver0 = fit inj sched start epochs nb stop0 ver0",
+           gen_args="", model="", model_name="Protocol.fit (through Skeleton.run_skel: the extracted control skeleton, interpreted, is the protocol machine)",
+           imports=["Protocol", "Skeleton"], cor_imports=["SkeletonT", "ProtocolT"],
+           tactic="apply run_skel_of_eqb; vm_compute; reflexivity")
